@@ -42,6 +42,7 @@ class Unit:
         self.functions = []    # dict(name, file, props, safety, mode, out_start, out_end, clauses)
         self.rewrites = []
         self.items = []
+        self.outlined = {}     # R12: name -> text of the outlined (assumed) helper, emitted at `//@outlined name`
 
     def src(self, rel):
         if rel not in self.sources:
@@ -85,6 +86,13 @@ class Unit:
             s = ln.strip()
             if s.startswith('//@item '):
                 self.do_item(s[len('//@item '):])
+                i += 1
+            elif s.startswith('//@outlined '):
+                nm = s.split()[1]
+                if nm not in self.outlined:
+                    raise Lost('template: //@outlined %s before (or without) its //@outline' % nm)
+                if self.outlined[nm] is not None:       # (None: the outlining function is itself assumed here, R8)
+                    self.emit_outlined(nm)
                 i += 1
             elif s.startswith('//@fn '):
                 j = i + 1
@@ -175,6 +183,7 @@ class Unit:
         endloops = {}    # loop ordinal -> ghost lines placed at the end of the loop body (R3)
         innerspecs = {}  # nested fn name -> contract lines
         atend = []       # ghost lines placed at the end of the function body (R3)
+        outlines = []    # (name, sig, call, first, last, contract lines) (R12)
         cur = None
         for l in block:
             s = l.strip()
@@ -199,6 +208,13 @@ class Unit:
                 w = s.split()
                 desugars[int(w[1])] = w[2] if len(w) > 2 else 'it__%s' % w[1]
                 cur = None
+            elif s.startswith('//@outline '):
+                # R12: //@outline NAME | <signature of the helper> | <call text> | <first text> ~~> <last text>
+                op_ = [x.strip() for x in s[len('//@outline '):].split(' | ')]
+                if len(op_) != 4 or ' ~~> ' not in op_[3]:
+                    raise Lost('template: bad //@outline line: %s' % s)
+                cur = []
+                outlines.append((op_[0], op_[1], op_[2], op_[3].split(' ~~> ')[0].strip(), op_[3].split(' ~~> ')[1].strip(), cur))
             elif s.startswith('//@rewrite'):
                 all_ = s.startswith('//@rewriteall')
                 body = s.split(' ', 1)[1]
@@ -244,7 +260,9 @@ class Unit:
             for a_ in kv['attr'].split(';'):
                 pre_attr += '#[%s]\n' % a_.replace('~', ' ')
         if mode == 'external_body':
-            loop_specs, inserts, desugars, endloops, innerspecs, atend = {}, [], {}, {}, {}, []      # body is dropped (R8)
+            for o_ in outlines:
+                self.outlined[o_[0]] = None
+            loop_specs, inserts, desugars, endloops, innerspecs, atend, outlines = {}, [], {}, {}, {}, [], []      # body is dropped (R8)
         # loops
         loops = src.loops(bopen, bclose)
         # R11: `for PAT in EXPR { BODY }` is spelled out as the language defines it (Rust reference,
@@ -276,6 +294,29 @@ class Unit:
             ins.append((br + 1, ' let ghost %s_prev = %s; match %s.next() { None => break, Some(%s) => {' % (itname, itname, itname, pat), 'desugar#%d' % k))
             ins.append((close + 1, ' } } }', 'desugar_close#%d' % k))
             self.rewrites.append(dict(rule='R11', fn=name, loop=k, pattern=pat, iterator=expr))
+        # R12: an expression of the body (given by its first and last source text) is moved VERBATIM into
+        # a helper function declared `external_body`, and replaced by a call of that helper.  Evaluation
+        # order and the values passed are unchanged (the helper's parameters are the variables the
+        # expression mentions); the helper's contract is ASSUMED and reported in the trusted base.
+        for oname, osig, ocall, ofirst, olast, olines in outlines:
+            # blanks in the two texts stand for any run of white space (the expression may span lines)
+            rx1 = re.compile(r'\s+'.join(re.escape(w) for w in ofirst.split()))
+            rx2 = re.compile(r'\s+'.join(re.escape(w) for w in olast.split()))
+            m1 = rx1.search(text, bopen, bclose)
+            if m1 is None:
+                raise Lost('fn %s: outline %s: first text not found: %s' % (name, oname, ofirst))
+            if rx1.search(text, m1.start() + 1, bclose) is not None:
+                raise Lost('fn %s: outline %s: first text ambiguous: %s' % (name, oname, ofirst))
+            a_ = m1.start()
+            m2 = rx2.search(text, a_, bclose)
+            if m2 is None:
+                raise Lost('fn %s: outline %s: last text not found: %s' % (name, oname, olast))
+            b_ = m2.end()
+            otext = text[a_:b_]
+            rewrites.append((otext, ocall, False))
+            self.outlined[oname] = dict(name=oname, sig=osig, spec=olines, text=otext, of=name, file=rel,
+                                        line=src.line_of(a_), props=kv.get('props', ''))
+            self.rewrites.append(dict(rule='R12', fn=name, helper=oname, outlined=otext, call=ocall))
         for k, spec_lines in loop_specs.items():
             if k < 1 or k > len(loops):
                 raise Lost('fn %s: loop #%d not found (%d loops)' % (name, k, len(loops)))
@@ -369,6 +410,8 @@ class Unit:
                     p[1] = p[1].replace(old, new)
             if new.startswith('match IntoIterator::into_iter(') and old.lstrip().startswith('for'):
                 continue
+            if any(o is not None and o['text'] == old for o in self.outlined.values()):
+                continue
             self.rewrites.append(dict(rule='R4' if old.lstrip().startswith('for') else 'RW',
                                       fn=name, old=old, new=new, count=cnt))
         # the ret_close piece: type text may have trailing space before '{'
@@ -388,6 +431,19 @@ class Unit:
             loops=len(loops), spec_lines=len([l for l in sig_spec if l.strip()]),
             assumed_from=kv.get('assumed_from', ''),
         ))
+
+    def emit_outlined(self, nm):
+        o = self.outlined[nm]
+        self.emit('// ---- helper %s: expression outlined (R12) from fn %s, %s:%d, text copied verbatim; contract ASSUMED'
+                  % (nm, o['of'], o['file'], o['line']))
+        out_start = self.line
+        # like R8 the helper's body is not looked at by Verus; the outlined text is shown as a comment
+        self.emit('#[verifier::external_body]\n' + o['sig'] + '\n' + '\n'.join(o['spec']) + '\n{\n'
+                  + ''.join('    // ' + l + '\n' for l in o['text'].split('\n')) + '    unimplemented!()\n}')
+        self.functions.append(dict(
+            name=nm, impl='(outlined from %s)' % o['of'], outlined_from=o['of'], file=o['file'], line=o['line'], props=[], safety=[],
+            mode='external_body', out_start=out_start, out_end=self.line - 1, loops=0,
+            spec_lines=len([l for l in o['spec'] if l.strip()]), assumed_from='', outlined=True))
 
     def _find_arrow(self, src, sig_start, bopen):
         """Return (a,b) offsets of the return type text, or None."""
